@@ -1133,8 +1133,8 @@ VARIANTS = [
     # ---- breaking edits ---------------------------------------------------------------
     Variant(
         "rewrite-field-class-admits-closing-brace", PY,
-        'r"{([^:}]*\\.[^:}]*)(:\\S*)?}"',
-        'r"{([^:]*\\.[^:]*)(:\\S*)?}"',
+        'r"{{|}}|{([^:{}]*\\.[^:{}]*)(:\\S*?)?}"',
+        'r"{{|}}|{([^:{]*\\.[^:{]*)(:\\S*?)?}"',
         "R09a", "field name may contain '}'",
     ),
     # the next four are keyed on the text of the proposed repair of R09a (stale until it lands)
@@ -1182,8 +1182,8 @@ VARIANTS = [
     ),
     Variant(
         "rewrite-applied-to-stripped-source", PY,
-        'r"{sqlfluff[\\1]\\2}", raw_str\n',
-        'r"{sqlfluff[\\1]\\2}", raw_str.strip()\n',
+        '_dot_notation_hack, raw_str\n',
+        '_dot_notation_hack, raw_str.strip()\n',
         "R09b", "formatted string is the rewritten source",
     ),
     Variant(
